@@ -9,6 +9,7 @@ package main
 import (
 	"encoding/json"
 	"fmt"
+	"go/token"
 	"go/types"
 	"os"
 	"sort"
@@ -175,6 +176,32 @@ func split(h string) []string {
 	return strings.Split(h, ",")
 }
 
+// containsLock reports whether a value of type t embeds a sync primitive by value.
+func containsLock(t types.Type, depth int) bool {
+	if depth > 6 {
+		return false
+	}
+	if n, ok := t.(*types.Named); ok {
+		if o := n.Obj(); o != nil && o.Pkg() != nil && o.Pkg().Path() == "sync" {
+			switch o.Name() {
+			case "Mutex", "RWMutex", "WaitGroup", "Once", "Cond":
+				return true
+			}
+		}
+	}
+	switch u := t.Underlying().(type) {
+	case *types.Struct:
+		for i := 0; i < u.NumFields(); i++ {
+			if containsLock(u.Field(i).Type(), depth+1) {
+				return true
+			}
+		}
+	case *types.Array:
+		return containsLock(u.Elem(), depth+1)
+	}
+	return false
+}
+
 func main() {
 	repo := os.Args[1]
 	cfg := &packages.Config{Mode: packages.LoadAllSyntax, Dir: repo, BuildFlags: []string{"-tags=test"}, Env: append(os.Environ(), "GOFLAGS=-mod=mod")}
@@ -211,6 +238,26 @@ func main() {
 			pos = prog.Fset.Position(in.Pos()).String()
 		}
 		res.Findings = append(res.Findings, finding{kind, f.String(), pos, what})
+	}
+	// locks copied by value (what `go vet -copylocks` looks for; the pinned test commands run with -vet=off): a
+	// parameter, receiver or result whose type holds a mutex by value, or a load of such a struct through a
+	// pointer. The copy is a different mutex with a snapshot of the state.
+	for _, f := range fns {
+		if strings.Contains(f.String(), "SafeMu") || strings.Contains(f.String(), "Verif") {
+			continue
+		}
+		for _, prm := range f.Params {
+			if containsLock(prm.Type(), 0) {
+				add("lock-copied-by-value", f, nil, "parameter or receiver "+prm.Name()+" of type "+prm.Type().String()+" holds a mutex by value: every call locks a private copy")
+			}
+		}
+		for _, b := range f.Blocks {
+			for _, in := range b.Instrs {
+				if u, ok := in.(*ssa.UnOp); ok && u.Op == token.MUL && containsLock(u.Type(), 0) {
+					add("lock-copied-by-value", f, in, "loads a value of type "+u.Type().String()+", which holds a mutex by value")
+				}
+			}
+		}
 	}
 	for _, f := range fns {
 		hasOp := false
